@@ -36,6 +36,19 @@ CLAIMED['C01'] = dict(
           'streams and on every in-loop E-step. NaN/Inf freedom in binary64 is explored, not proved.'),
     design='6/C01', technique='Coq proof over Reals + in-Coq differential correspondence + predicate search')
 
+CLAIMED['C08'] = dict(
+    text=('Theorems (real-number instance of Model/Trainers.v, Model/Posterior.v, Model/EM.v): an integer saliency acts exactly '
+          'like repetition for every weighted sum and hence for every estimator built from such sums; Gaussian mean / pooled '
+          'scatter / diagonal / spherical covariance formulas, symmetry and positive semidefiniteness; vMF mean has unit norm, '
+          'concentration is the clipped Banerjee estimate; complex scatter estimators are Hermitian; the cACG eigenvalue '
+          'normalisation is scale free with spectrum in [floor,1] and maximum 1; mixture weights are distributions; a fit of n '
+          'iterations is exactly n alternations M,(E;M)^(n-1). Oracle parts (eigh, Watson spline inverse, Bingham least squares) '
+          'are contracts evaluated per case. Tie to /repo on every run: single trainers and EVERY recorded EM iteration of all '
+          'seven mixture trainers (M-step of sampled classes, E-step, quadratic forms, start values, inline aligner permuting '
+          'posterior and quadratic form together) are compared inside Coq with the model; documented formulas evaluated '
+          'independently in NumPy give the failing input. Convergence of the repeated cACG step is explored, not proved.'),
+    design='6/C08', technique='Coq proof over Reals + in-Coq differential correspondence along recorded EM traces')
+
 NOT_YET = {}
 
 
